@@ -5,6 +5,9 @@
 /// Primitive wire/expected types by selector. 0..=16
 pub const N_PRIM: u8 = 17;
 pub fn prim(sel: u8) -> Type {
+    prim_inner(sel).into()
+}
+pub fn prim_inner(sel: u8) -> TypeInner {
     match sel {
         0 => TypeInner::Null,
         1 => TypeInner::Bool,
@@ -25,7 +28,6 @@ pub fn prim(sel: u8) -> Type {
         16 => TypeInner::Empty,
         _ => TypeInner::Principal,
     }
-    .into()
 }
 pub fn prim_name(sel: u8) -> &'static str {
     match sel {
